@@ -57,6 +57,52 @@ fn iter_access<P: Gx + PartialEq + Clone + tari_bulletproofs_plus::traits::Preco
     iter_access_one("gi_base_iter", || prm.gi_base_iter(), gv, rng, rep).or_else(|| iter_access_one("hi_base_iter", || prm.hi_base_iter(), hv, rng, rep))
 }
 
+/// Copies of a parameter set are the same parameter set: `clone()` and `clone_from()` (onto an object of another
+/// shape, also element-wise through `Vec::clone_from`) give the source's generators through every accessor, and a
+/// precomputed table that represents exactly those generators
+fn copies_agree<P>(prm: &RangeParameters<P>, other: &RangeParameters<P>, gv: &[P], hv: &[P], rng: &mut rand_chacha::ChaCha12Rng, rep: &mut Report) -> Option<String>
+where P: Gx + PartialEq + Clone + refbp::RefGroup + tari_bulletproofs_plus::traits::Precomputable + tari_bulletproofs_plus::traits::FromUniformBytes {
+    let n = prm.bit_length();
+    let len = 2 * gv.len();
+    let mut copies: Vec<(&str, RangeParameters<P>)> = vec![("clone()", prm.clone())];
+    let mut a = other.clone();
+    a.clone_from(prm);
+    copies.push(("clone_from() onto a parameter set of another shape", a));
+    let mut v = vec![other.clone(), other.clone()];
+    v.clone_from(&vec![prm.clone(), prm.clone()]);
+    copies.push(("Vec::clone_from() onto parameter sets of another shape", v.pop().expect("two")));
+    for (how, c) in &copies {
+        rep.count("parameter_copies_checked", 1);
+        if c.bit_length() != n || c.max_aggregation_factor() != prm.max_aggregation_factor() || c.extension_degree() as usize != prm.extension_degree() as usize {
+            return Some(format!("{how}: bit length / capacity / degree differ from the source"));
+        }
+        if !c.gi_base_iter().eq(gv.iter()) || !c.hi_base_iter().eq(hv.iter()) || c.g_bases() != prm.g_bases() || c.h_base() != prm.h_base() {
+            return Some(format!("{how}: the copy's generators differ from the source's"));
+        }
+        // table probes: unit vectors at the party boundaries and one sparse random combination
+        let pre = c.precomp();
+        let mut probes: Vec<Vec<(usize, Scalar)>> = [0usize, 1, 2 * n - 1, (2 * n).min(len - 1), len - 1, len / 2].iter().map(|u| vec![(*u, Scalar::ONE)]).collect();
+        probes.push((0..8).map(|_| ((rng.next_u64() as usize) % len, rand_scalar(rng))).collect());
+        for pr in probes {
+            let mut sc = vec![Scalar::ZERO; len];
+            let mut want = P::zero();
+            for (u, x) in &pr {
+                sc[*u] += x;
+                let g = if u % 2 == 0 { &gv[u / 2] } else { &hv[u / 2] };
+                want = want.plus(&g.times(x));
+            }
+            let got = match crate::onris::no_panic(|| pre.vartime_multiscalar_mul(sc.iter())) {
+                Ok(g) => g,
+                Err(p) => return Some(format!("{how}: using the copy's precomputed table panics: {p}")),
+            };
+            if got != want {
+                return Some(format!("{how}: the copy's precomputed table does not represent the copy's vector generators"));
+            }
+        }
+    }
+    None
+}
+
 fn iter_access_one<'a, P: PartialEq + 'a, I: Iterator<Item = &'a P>>(nm: &str, mk: impl Fn() -> I, v: &'a [P], rng: &mut rand_chacha::ChaCha12Rng, rep: &mut Report) -> Option<String> {
     let len = v.len();
     {
@@ -208,6 +254,18 @@ fn ristretto_leg(ctx: &Ctx, rep: &mut Report) {
             if let Some(msg) = iter_access(&prm, &gv, &hv, &mut rng, rep) {
                 rep.violation("C11 iterator-access", &msg, rp(ctx, id, "ris", d.clone()));
             }
+            {
+                // another shape with the same number of generators where there is one, else another capacity
+                let (on, ocap) = if n >= 2 { (n / 2, cap * 2) } else if cap >= 2 { (n * 2, cap / 2) } else { (2, 2) };
+                let other = RangeParameters::init(on, ocap, <RistrettoPoint as Gx>::pedersen(1 + ext % 6)).expect("params");
+                if let Some(msg) = copies_agree(&prm, &other, &gv, &hv, &mut rng, rep) {
+                    rep.violation("C11 copy-differs", &msg, rp(ctx, id, "ris", d.clone()));
+                }
+                let other = RangeParameters::init(n, if cap > 1 { cap / 2 } else { 2 }, <RistrettoPoint as Gx>::pedersen(ext)).expect("params");
+                if let Some(msg) = copies_agree(&prm, &other, &gv, &hv, &mut rng, rep) {
+                    rep.violation("C11 copy-differs", &msg, rp(ctx, id, "ris", d.clone()));
+                }
+            }
             // accessors for compressed forms
             if prm.h_base_compressed() != prm.h_base().compress() || prm.g_bases_compressed().iter().zip(prm.g_bases()).any(|(c, p)| *c != p.compress()) {
                 rep.violation("C11 compressed-form", "compressed accessor differs from the encoding of the point", rp(ctx, id, "ris", d.clone()));
@@ -317,6 +375,11 @@ fn fm_leg(ctx: &Ctx, rep: &mut Report) {
             if gv.len() == n * cap && hv.len() == n * cap {
                 if let Some(msg) = iter_access(&prm, &gv, &hv, &mut rng, rep) {
                     rep.violation("C11 iterator-access", &msg, rp(ctx, id, "fm", d.clone()));
+                }
+                let (on, ocap) = if n >= 2 { (n / 2, cap * 2) } else if cap >= 2 { (n * 2, cap / 2) } else { (2, 2) };
+                let other = RangeParameters::init(on, ocap, <FmPoint as Gx>::pedersen(1 + ext % 6)).expect("params");
+                if let Some(msg) = copies_agree(&prm, &other, &gv, &hv, &mut rng, rep) {
+                    rep.violation("C11 copy-differs", &msg, rp(ctx, id, "fm", d.clone()));
                 }
             }
             // the table is built from the interleaving G_0, H_0, G_1, H_1, ...
